@@ -93,6 +93,13 @@ struct PSocket_ {
 #  define SHUT_RDWR			2
 #endif
 
+/* WinSock takes the buffer length as int, POSIX as size_t: do not cut it to 32 bits there */
+#ifdef P_OS_WIN
+#  define P_SOCKET_BUFLEN_CAST(len)	((pint) (len))
+#else
+#  define P_SOCKET_BUFLEN_CAST(len)	((size_t) (len))
+#endif
+
 #ifdef MSG_NOSIGNAL
 #  define P_SOCKET_DEFAULT_SEND_FLAGS	MSG_NOSIGNAL
 #else
@@ -1108,7 +1115,7 @@ p_socket_receive (const PSocket	*socket,
 						error) == FALSE)
 			return -1;
 
-		if ((ret = recv (socket->fd, buffer, (socklen_t) buflen, 0)) < 0) {
+		if ((ret = recv (socket->fd, buffer, P_SOCKET_BUFLEN_CAST (buflen), 0)) < 0) {
 			err_code = p_error_get_last_net ();
 
 #if !defined (P_OS_WIN) && defined (EINTR)
@@ -1169,7 +1176,7 @@ p_socket_receive_from (const PSocket	*socket,
 
 		if ((ret = recvfrom (socket->fd,
 				     buffer,
-				     (socklen_t) buflen,
+				     P_SOCKET_BUFLEN_CAST (buflen),
 				     0,
 				     (struct sockaddr *) &sa,
 				     &optlen)) < 0) {
@@ -1231,7 +1238,7 @@ p_socket_send (const PSocket	*socket,
 
 		if ((ret = send (socket->fd,
 				 buffer,
-				 (socklen_t) buflen,
+				 P_SOCKET_BUFLEN_CAST (buflen),
 				 P_SOCKET_DEFAULT_SEND_FLAGS)) < 0) {
 			err_code = p_error_get_last_net ();
 
@@ -1299,7 +1306,7 @@ p_socket_send_to (const PSocket		*socket,
 
 		if ((ret = sendto (socket->fd,
 				   buffer,
-				   (socklen_t) buflen,
+				   P_SOCKET_BUFLEN_CAST (buflen),
 				   0,
 				   (struct sockaddr *) &sa,
 				   optlen)) < 0) {
